@@ -85,6 +85,13 @@ func valueRecord(v VRec) *gtab.GposValueRecord {
 	return r
 }
 
+func valueRecordOrNil(v VRec) *gtab.GposValueRecord {
+	if v == (VRec{}) {
+		return nil
+	}
+	return valueRecord(v)
+}
+
 func pairAdjust(c PairCell) *gtab.PairAdjust {
 	pa := &gtab.PairAdjust{First: valueRecord(c.V1)}
 	if c.V2 != nil {
@@ -180,13 +187,16 @@ func (s *Sub) toGtab() gtab.Subtable {
 		return &gtab.ChainedSeqContext3{Backtrack: covSets(s.Covs), Input: covSets(s.Covs2),
 			Lookahead: covSets(s.Covs3), Actions: seqLookups(s.Acts)}
 	case "p1":
-		return &gtab.Gpos1_1{Cov: covTable(s.Cov), Adjust: valueRecord(s.V)}
+		// an all-zero record is handed over as a NIL value record (value format
+		// 0 in the file): the covered glyph still MATCHES the subtable, nothing
+		// is added - the same meaning, the form font files use
+		return &gtab.Gpos1_1{Cov: covTable(s.Cov), Adjust: valueRecordOrNil(s.V)}
 	case "p2":
 		var keys []int
 		var adj []*gtab.GposValueRecord
 		for _, e := range s.GVs {
 			keys = append(keys, e.G)
-			adj = append(adj, valueRecord(e.V))
+			adj = append(adj, valueRecordOrNil(e.V))
 		}
 		return &gtab.Gpos1_2{Cov: covTable(keys), Adjust: adj}
 	case "pp1":
